@@ -21,7 +21,17 @@ the protocol shapes (channel operation, mutex lock, scope end of a guard, `sched
 loop / branch / return ...), or its exact token text is in the allow-list PAR_NOTES (not protocol relevant, emitted as
 `Act.note "<text>"`, never dropped), or the part FAILS CLOSED.
 
+`determine_worker_count` is translated as a FUNCTION (`Gen.Par.determineWorkerCount`): the result of
+`std::thread::available_parallelism()` and the value of the environment variable named by
+`envvar_key::DEFAULT_PARALLELISM` are parameters, `config.workers` is the field of Gen/Config.lean's `Encoder`; the method
+chains are read through the table WC_STD below.
+
 Trusted base of this part (everything that is not read from the source):
+  WC_STD            readings of the std calls of `determine_worker_count` (`Option::and_then/filter/unwrap_or/map_or`,
+                    `Result::ok`, `str::parse::<usize>` = ParProg.parseUsize: optional `+`, decimal digits only, no
+                    whitespace, overflow = error; `NonZeroUsize::get` = the value; `available_parallelism().map_err(..)?`
+                    = a parameter whose `Err` returns `Err`; `std::env::var(KEY).ok()` = a parameter: `None` when the
+                    variable is unset or not unicode)
   PAR_CHAN_FIELDS   struct field -> channel; `.0` is the Sender, `.1` the Receiver (checked against the struct definitions)
   PAR_STRUCT_FP     fingerprints of the four struct definitions the readings below rely on
   PAR_EXTERNAL      readings of calls that leave par.rs (`src.read_samples`, `coding::encode_fixed_size_frame`,
@@ -1262,6 +1272,110 @@ class Tx:
 
 
 # =====================================================================================================================
+# determine_worker_count as a function
+
+# readings of std (trusted): method -> Lean template ({r} receiver, {0}.. arguments)
+WC_STD = {
+    "and_then": ("Option.bind {r} {0}", 1, "Option::and_then"),
+    "filter": ("Option.filter {0} {r}", 1, "Option::filter (the closure takes a reference)"),
+    "unwrap_or": ("Option.getD {r} {0}", 1, "Option::unwrap_or"),
+    "map_or": ("ParProg.mapOr {r} {0} {1}", 2, "Option::map_or(default, f)"),
+}
+WC_AVAILABLE = "std :: thread :: available_parallelism ( ) . map_err ( SourceError :: from_io_error ) ? . get ( )"
+WC_ENV = "std :: env :: var ( envvar_key :: DEFAULT_PARALLELISM ) . ok ( )"
+WC_PARSE = r"(\w+) \. parse :: < usize > \( \) \. ok \( \)"
+WC_CMP = {">": ">", ">=": "≥", "<": "<", "<=": "≤", "==": "=", "!=": "≠"}
+
+
+class WcTx:
+    def __init__(self, tx):
+        self.tx = tx
+
+    def txt(self, n):
+        return self.tx.txt(n)
+
+    def value(self, e, env, fn_ok=False):
+        """Lean term of a value expression; env = set of locals in scope"""
+        k, tx = e["k"], self.txt(e)
+        if k == "paren":
+            return self.value(e["e"], env)
+        if tx == WC_ENV:
+            return "env_value"
+        if tx == "config . workers":
+            return "config.workers"
+        if k == "path" and tx in env:
+            return tx
+        if k == "lit":
+            m = re.fullmatch(r"(\d+)(usize)?", tx)
+            if m:
+                return str(int(m.group(1)))
+        if k in ("closure",) and not fn_ok:
+            fail(f"determine_worker_count: a closure where a value is expected: `{tx}`")
+        if k == "closure":
+            if len(e["params"]) != 1 or not re.fullmatch(r"[a-z_]+", e["params"][0]):
+                fail(f"determine_worker_count: closure parameters `{' '.join(e['params'])}`")
+            v = e["params"][0]
+            return f"(fun {v} => {self.value(e['body'], env | {v})})"
+        if k == "path" and tx == "NonZeroUsize :: get":
+            if not fn_ok:
+                fail("determine_worker_count: `NonZeroUsize::get` where a value is expected")
+            return "(fun n => n)"
+        m = re.fullmatch(WC_PARSE, tx)
+        if m and m.group(1) in env:
+            return f"(ParProg.parseUsize {T.HDR_BITS['usize']} {m.group(1)})"
+        if k == "bin" and e["op"] in WC_CMP:
+            def side(x):
+                if x["k"] == "unary" and x["op"] == "*" and self.txt(x["e"]) in env:
+                    return self.txt(x["e"])
+                if x["k"] == "lit" and re.fullmatch(r"\d+(usize)?", self.txt(x)):
+                    return str(int(re.match(r"\d+", self.txt(x)).group(0)))
+                if x["k"] == "path" and self.txt(x) in env:
+                    return self.txt(x)
+                fail(f"determine_worker_count: operand `{self.txt(x)}`")
+            return f"(decide ({side(e['a'])} {WC_CMP[e['op']]} {side(e['b'])}))"
+        if k == "mcall" and e["name"] in WC_STD:
+            tpl, n, _ = WC_STD[e["name"]]
+            if len(e["args"]) != n:
+                fail(f"determine_worker_count: `{e['name']}` with {len(e['args'])} arguments")
+            fpos = {"and_then": 0, "filter": 0, "map_or": 1}.get(e["name"])
+            args = [self.value(a, env, fn_ok=(i == fpos)) for i, a in enumerate(e["args"])]
+            if fpos is not None and not (e["args"][fpos]["k"] == "closure" or self.txt(e["args"][fpos]) == "NonZeroUsize :: get"):
+                fail(f"determine_worker_count: `{e['name']}` expects a function, found `{self.txt(e['args'][fpos])}`")
+            return "(" + tpl.format(*args, r=self.value(e["recv"], env)) + ")"
+        fail(f"determine_worker_count: expression not classified: `{tx}`")
+
+    def function(self, rec):
+        if T_sig(rec) != "config:&config::Encoder->Result<usize,SourceError>":
+            fail(f"determine_worker_count: signature {T_sig(rec)}")
+        b = P(self.tx.t, rec["body"][0], rec["body"][1]).block()
+        lines, env = [], set()
+        stmts = b["stmts"]
+        for i, st in enumerate(stmts):
+            last = i == len(stmts) - 1
+            if st["cfg"] is not None:
+                fail("determine_worker_count: cfg attribute")
+            if st["k"] == "let" and not last:
+                name = " ".join(st["pat"])
+                if not re.fullmatch(r"[a-z_]+", name) or st["init"] is None:
+                    fail(f"determine_worker_count: `{self.txt(st)}`")
+                if self.txt(st["init"]) == WC_AVAILABLE:
+                    lines.append(f"ParProg.bindO available_parallelism fun {name} =>")
+                else:
+                    lines.append(f"let {name} := {self.value(st['init'], env)}")
+                env = env | {name}
+            elif last and st["k"] == "expr" and not st["semi"] and st["e"]["k"] == "call" and self.txt(st["e"]["f"]) == "Ok" \
+                    and len(st["e"]["args"]) == 1:
+                lines.append(f"some {self.value(st['e']['args'][0], env)}")
+            else:
+                fail(f"determine_worker_count: statement `{self.txt(st)}`")
+        return lines
+
+
+def T_sig(rec):
+    return ",".join("".join(p) for p in rec["params"]) + "->" + "".join(rec["ret"])
+
+
+# =====================================================================================================================
 # emission
 
 def lean_stmt(s, ind):
@@ -1426,6 +1540,7 @@ def emit_par(tmod, cinfo=None):
     L.append("   The programs of the three thread roles of the multi-thread encoder as data of Model/ParProg.lean. -/")
     L.append("import FlacVerif.Model.ParProg")
     L.append("import FlacVerif.Gen.Constants")
+    L.append("import FlacVerif.Gen.Config")
     L.append("")
     L.append("namespace FlacVerif.Gen.Par")
     L.append("open FlacVerif.ParProg")
@@ -1460,5 +1575,29 @@ def emit_par(tmod, cinfo=None):
         L.append(f"/-- {doc} -/")
         L.append(f"def {nm} : List Stmt := {lean_list(pr, 0)}")
         L.append("")
+    # determine_worker_count
+    if "determine_worker_count" not in items.fns or len(items.fn_versions["determine_worker_count"]) != 1:
+        fail("fn determine_worker_count: not found or defined twice")
+    wc_lines = WcTx(tx).function(items.fns["determine_worker_count"])
+    cpath = os.path.join(T.REPO, "src", "constant.rs")
+    m = re.search(r'pub const DEFAULT_PARALLELISM: &str = "([A-Za-z0-9_]+)";', open(cpath).read()) if os.path.exists(cpath) else None
+    if not m:
+        fail("constant.rs: envvar_key::DEFAULT_PARALLELISM not found")
+    wc_note = "let worker_count = determine_worker_count ( & config ) ? ;"
+    if wc_note not in tx.notes_used:
+        fail("encode_with_fixed_block_size: the worker count is not bound by `let worker_count = determine_worker_count(&config)?;`")
+    L.append("/-- name of the environment variable read by `determine_worker_count` (`envvar_key::DEFAULT_PARALLELISM`) -/")
+    L.append(f'def workerEnvKey : String := "{m.group(1)}"')
+    L.append("")
+    L.append("/-- `determine_worker_count`: `available_parallelism` = `std::thread::available_parallelism()` (`none` = `Err`, the")
+    L.append("function returns `Err`; `some n` with `n ≥ 1`: it is a `NonZeroUsize`), `env_value` = value of the environment variable")
+    L.append("`workerEnvKey` (`none`: unset or not unicode), `config.workers` = the `Option<NonZeroUsize>` field.  Its value is bound to")
+    L.append("`worker_count` by `let worker_count = determine_worker_count(&config)?;` in `mainSetup` and is `Count.workers` of the")
+    L.append("programs below: `replicas = worker_count * FRAMEBUF_MULTIPLICITY`, the number of spawned workers, the `request_stop` count. -/")
+    L.append("def determineWorkerCount (available_parallelism : Option Nat) (env_value : Option String)")
+    L.append("    (config : FlacVerif.Gen.Encoder) : Option Nat :=")
+    for ln in wc_lines:
+        L.append("  " + ln)
+    L.append("")
     L.append("end FlacVerif.Gen.Par")
     return "\n".join(L) + "\n"
